@@ -95,6 +95,7 @@ CLASS NAMES (program.classes / Def.flags)
 Faulty closures for parse histories (C12): inject_fault(program, kind, ch, where=None) with kind in FAULT_KINDS
     ("missing-import", "no-id", "no-fields", "signal-as-field-type"); expected_error = FAULT_ERRORS[kind] (not a ParserError)
 FileSpec.compiler_options {"AUTO_PAD"|"VALIDATE_ALIGNMENT"|"IMPORT_COREDEFS": bool} is rendered as a ``compiler_options:`` section
+DEFAULT-ON since round 5: directory name ``core_defs`` among the drawn directories (class "dir-core_defs") and as a relocation target
 DEFAULT-ON classes added 2026-10-04 (plain documented syntax)
     alias chains: alias-of-alias(-of-alias) ending in an imported struct or a native (classes "alias-chain-to-struct-<n>",
         "alias-chain-to-native-<n>", n = 2..3), used as scalar field type, array element ("alias-chain-field-to-struct/native",
@@ -116,6 +117,11 @@ OPT_IN classes (never produced unless listed in ``allow``; each is tied to a kno
         (expected_registry() lists every id it names) or rejects the file with RTMASyntaxError - the program stays
         wellformed=True but callers must accept that rejection; inject_conflict / all_conflict_cases use the same spellings
         with expected ["MessageIDError", "RTMASyntaxError"] (conflict["loose_spelling"])
+    "signed-char": the native name ``signed char`` (in the parser's table of supported types, in no back end, in no document) as
+        scalar / array element / alias target; class "signed-char".  NATIVES / NATIVE_KIND know it (1 byte, "int");
+        NATIVE_NAMES and BY_WIDTH stay the 26 common names
+    "padding-field-name": ~70% of the programs get (add_padding_field_name(program, ch)) one user field named padding_0_ /
+        padding_1_ / padding_2_ like the compiler's automatic padding; classes "padding-field-name[/<name>]"
     "reserved-field-name": ~70% of the programs get (add_reserved_field_name(program, ch, name=None)) one field of one
         message/struct renamed to one of RESERVED_FIELD_NAMES; the compiler must reject it: wellformed False,
         expected_error "RTMASyntaxError", expect {"outcome","at","field"}, classes "reserved-field-name[/<name>]"
@@ -151,21 +157,24 @@ NATIVES: Dict[str, int] = {
     "short": 2, "signed short": 2, "unsigned short": 2, "long": 4, "signed long": 4, "unsigned long": 4,
     "long long": 8, "signed long long": 8, "unsigned long long": 8, "float": 4, "double": 8,
     "uint8": 1, "uint16": 2, "uint32": 4, "uint64": 8, "int8": 1, "int16": 2, "int32": 4, "int64": 8,
+    # listed in the parser's table of supported types but in no back end and no document: resolvable by the model, drawn
+    # only with allow=("signed-char",)
+    "signed char": 1,
 }
 NATIVE_KIND: Dict[str, str] = {
     "char": "char", "unsigned char": "uint", "byte": "uint", "int": "int", "signed int": "int", "unsigned int": "uint",
     "unsigned": "uint", "short": "int", "signed short": "int", "unsigned short": "uint", "long": "int",
     "signed long": "int", "unsigned long": "uint", "long long": "int", "signed long long": "int",
     "unsigned long long": "uint", "float": "float", "double": "float", "uint8": "uint", "uint16": "uint",
-    "uint32": "uint", "uint64": "uint", "int8": "int", "int16": "int", "int32": "int", "int64": "int",
+    "uint32": "uint", "uint64": "uint", "int8": "int", "int16": "int", "int32": "int", "int64": "int", "signed char": "int",
 }
-NATIVE_NAMES = list(NATIVES)
+NATIVE_NAMES = [n for n in NATIVES if n != "signed char"]  # the 26 names common to the parser and all back ends
 _NATIVE_POOL = NATIVE_NAMES + [n for n in NATIVE_NAMES if re.search(r"\d", n) or n in ("char", "float", "double")]  # sized names twice
-BY_WIDTH = {w: [n for n, s in NATIVES.items() if s == w] for w in (1, 2, 4, 8)}
+BY_WIDTH = {w: [n for n in NATIVE_NAMES if NATIVES[n] == w] for w in (1, 2, 4, 8)}
 LENGTHS = [1, 2, 3, 7, 8, 32, 255, 256, 1000]
 RESERVED_FIELD_NAMES = ("type_id", "type_name", "type_hash", "type_source", "type_def", "type_size", "hexdump")
 OPT_IN = ("alias-of-imported-struct", "alias-of-imported-struct-field", "struct-contains-message", "string-special",
-          "prefix-names", "zero-length", "long-names", "fractional-length", "reserved-field-name", "reserved-loose")
+          "prefix-names", "zero-length", "long-names", "fractional-length", "reserved-field-name", "reserved-loose", "signed-char", "padding-field-name")
 COVER_NAME_LENGTHS = [1, 2, 31, 32, 40, 45, 46, 47, 48, 63]
 MAX_NAME_LENGTH = 63  # MATLAB's namelengthmax
 MAX_SIZE = 65535
@@ -193,7 +202,7 @@ _COMMENT_WORDS = ["units in mm", "see spec", "do not change", "legacy", "TODO: c
                   "id: 9999", "fields: null", "range 0-100", "# nested", "int32[4]", "temporary"]
 _STRING_WORDS = ["hello world", "rig_A", "v1", "left", "right", "calibration", "subject 7", "alpha-beta", "OK", "x"]
 _STRING_SPECIAL = ['say "hi"', "back\\slash", "it's", "tab\\t", 'q"', "a # b", "50% done", "{curly}"]
-_DIRS = ["", "common", "shared", "proj"]
+_DIRS = ["", "common", "shared", "proj", "core_defs"]  # a user directory may well be called like the package's own one
 _FILEWORDS = ["base", "types", "hardware", "task", "decoder", "stim", "extra", "units", "robot", "logging"]
 
 
@@ -1313,7 +1322,8 @@ class _Builder:
             st_imp = self.visible_defs(vis_files, ["struct"]) if "alias-of-imported-struct" in self.allow else []
             kind = ch.weighted([("native", 5), ("alias", 4 if (al_imp or al_loc) else 0), ("struct", 3 if st_imp else 0)])
             if kind == "native":
-                add(Def("alias", name, path, value=ch.choice(NATIVE_NAMES), flags=["alias-native"]))
+                sc = "signed-char" in self.allow and ch.chance(0.12)
+                add(Def("alias", name, path, value="signed char" if sc else ch.choice(NATIVE_NAMES), flags=["alias-native"] + (["signed-char"] if sc else [])))
                 self.taint[name] = set()
                 self.chain[name] = 1
             elif kind == "alias":
@@ -1521,7 +1531,9 @@ class _Builder:
             cat = ch.weighted(cats)
             fl = set()
             if cat == "native":
-                base = ch.choice(_NATIVE_POOL)
+                base = "signed char" if "signed-char" in self.allow and ch.chance(0.12) else ch.choice(_NATIVE_POOL)
+                if base == "signed char":
+                    fl.add("signed-char")
                 es = al = NATIVES[base]
             elif cat == "alias":
                 chained = [x for x in al_c if self.chain.get(x.name, 1) >= 2]
@@ -1815,7 +1827,31 @@ def build_program(ch: Chooser, max_files: int = 6, min_files: int = 1, import_co
         prog = add_fractional_length(prog, ch) or prog
     if "reserved-field-name" in allow and prog.wellformed and ch.chance(0.7):
         prog = add_reserved_field_name(prog, ch) or prog
+    if "padding-field-name" in allow and prog.wellformed and ch.chance(0.7):
+        prog = add_padding_field_name(prog, ch) or prog
+    if any("core_defs" in posixpath.dirname(s_.path).split("/") for s_ in prog.specs):
+        prog.classes.add("dir-core_defs")
     return prog
+
+
+def add_padding_field_name(program: Program, ch: Chooser) -> Optional[Program]:
+    """Copy of a well-formed program in which one user field of one struct/message is named like the compiler's automatic
+    padding fields (padding_0_, padding_1_, padding_2_).  Classes "padding-field-name[/<name>]".  The compiler either keeps the
+    user's field apart from its own padding (all outputs then show it) or refuses the name; the program stays wellformed=True."""
+    cands = [d for d in program.defs if d.kind in ("struct", "message") and d.fields]
+    if not cands:
+        return None
+    q = program.clone()
+    t = ch.choice(cands)
+    d = [x for x in q.spec(t.file).defs if x.name == t.name and x.kind == t.kind][0]
+    name = ch.choice(["padding_0_", "padding_0_", "padding_1_", "padding_2_"])
+    if any(f.name == name for f in d.fields):
+        return None
+    ch.choice(d.fields).name = name
+    d.flags = sorted(set(d.flags) | {"padding-field-name"})
+    q.classes |= {"padding-field-name", "padding-field-name/" + name}
+    q.rerender()
+    return q if not q.problems() else None
 
 
 def add_reserved_field_name(program: Program, ch: Chooser, name: Optional[str] = None, kinds: Sequence[str] = ("message", "message", "struct")) -> Optional[Program]:
@@ -2824,7 +2860,7 @@ def relocate(program: Program, message_name: str, ch: Chooser, new_file: Optiona
         src.defs.remove(d)
         created = False
         if tgt is None:
-            dirs = sorted({posixpath.dirname(s.path) for s in q.specs}) + ["moved", "deep/er"]
+            dirs = sorted({posixpath.dirname(s.path) for s in q.specs}) + ["moved", "deep/er", "core_defs", "lib/core_defs"]
             dd = ch.cos.choice(dirs)
             base = ch.cos.choice(["moved", "relocated", "split", "part"])
             k = 0
